@@ -64,7 +64,7 @@ def judge_solution(ctx, key, info, obs, a_exact, err_exact, order):
 def m2(ctx, al, cfg):
     d = tlc.scratch_dir("c10")
     dump = os.path.join(d, "states")
-    r = tlc.require_ok(tlc.run("LpcC10", cfg, dump=dump), "LpcC10",
+    r = tlc.require_ok(tlc.run(cfg[:-4], cfg, dump=dump), cfg[:-4],
                        need_actions=("LdStep", "LdFinish", "KcStep"))
     ctx.add_tlc(r, "Lpc (C10 grid): Levinson / kcovar machines == normal equations, error identities")
     nstates = 0
@@ -374,9 +374,9 @@ def check(ctx):
         "numpy strategies (lpc.nautocor, lpc.covar, lpc.autocor below order 100) are out of scope: numpy is absent",
     ]
     if ctx.thorough:
-        m2(ctx, al, "LpcC10_thorough.cfg")
+        m2(ctx, al, "LpcC10T.cfg")
         m3(ctx, al, 1500)
     else:
-        m2(ctx, al, "LpcC10_quick.cfg")
+        m2(ctx, al, "LpcC10Q.cfg")
         m3(ctx, al, 150)
     ctx.exhaustive = True
